@@ -270,3 +270,27 @@ func bulkSizes(thorough bool) []int {
 	}
 	return []int{65, 129, 257, 300, 1025}
 }
+
+// longLens: lengths of the "long input" stream of the pure-helper generators: standard ones and lengths that
+// straddle the thresholds a change introduced into the source (VERIF_SIZES).
+func longLens(thorough bool) []int {
+	out := []int{70, 300, 1100}
+	if thorough {
+		out = append(out, 4200)
+	}
+	for _, s := range extraSizes() {
+		if s <= 20000 {
+			out = append(out, s-1, s, s+1, 2*s+1)
+		}
+	}
+	return out
+}
+
+// longSlice: n values with duplicates, zeros and negative numbers in a non-periodic pattern.
+func longSlice(n, salt int) []int {
+	a := make([]int, n)
+	for i := range a {
+		a[i] = (i*i+salt*7+i/3)%23 - 5
+	}
+	return a
+}
